@@ -69,3 +69,250 @@ Proof.
   replace (4224 <=? a) with false by (symmetry; apply Z.leb_gt; lia).
   cbn. split; reflexivity.
 Qed.
+
+(** * Statement templates for split-port variables (Model/GenSplit.v, Proofs/GenSplitFacts.v)
+
+    For each statement shape the compiler emits on [superchip] variables (25 listings pinned to
+    the real compiler's output by the [slisting_NN] examples of Model/GenSplit.v): the sequence
+    load-through-the-read-port / compute / store-through-the-write-port runs on [Sem.run] without
+    a fault under the superchip port description, leaves the C result in the physical cell of
+    the destination (16-bit: the carry reaches the high byte), changes no other cell and keeps
+    X, Y, S.  The pointer forms [p++] / [p--] are [PInc16] / [PDec16].  Last: the lowering used
+    for ordinary variables ([INC v]) faults on such a variable. *)
+From CC Require Import Model.OptSem Model.GenTemplates Proofs.GenTemplatesFacts Model.GenSplit
+  Proofs.GenSplitFacts.
+Open Scope string_scope.
+Open Scope list_scope.
+Open Scope Z_scope.
+
+(** the configuration of the theorems is the port description of this file *)
+Theorem C17_split_cfg_superchip : forall cfg, split_cfg cfg <-> ports cfg = superchip_ports.
+Proof. intros cfg. unfold split_cfg, superchip_ports. tauto. Qed.
+
+Theorem C17_split_copy_in : forall cfg dst x pd px st,
+  split_cfg cfg -> split_name dst -> split_name x ->
+  layout cfg dst = Some pd -> layout cfg x = Some px ->
+  in_wport pd -> ordinary px ->
+  exists st', runs_to cfg (stemplate (PCopyIn dst x)) st st' /\
+    mget (mem st') pd = mget (mem st) px /\
+    only_changes [pd] st st' /\ keeps_xys st st'.
+Proof. exact split_copy_in_correct. Qed.
+
+Theorem C17_split_copy_out : forall cfg dst x pd px st,
+  split_cfg cfg -> split_name dst -> split_name x ->
+  layout cfg dst = Some pd -> layout cfg x = Some px ->
+  ordinary pd -> in_wport px ->
+  exists st', runs_to cfg (stemplate (PCopyOut dst x)) st st' /\
+    mget (mem st') pd = mget (mem st) px /\
+    only_changes [pd] st st' /\ keeps_xys st st'.
+Proof. exact split_copy_out_correct. Qed.
+
+Theorem C17_split_copy : forall cfg dst x pd px st,
+  split_cfg cfg -> split_name dst -> split_name x ->
+  layout cfg dst = Some pd -> layout cfg x = Some px ->
+  in_wport pd -> in_wport px ->
+  exists st', runs_to cfg (stemplate (PCopy dst x)) st st' /\
+    mget (mem st') pd = mget (mem st) px /\
+    only_changes [pd] st st' /\ keeps_xys st st'.
+Proof. exact split_copy_correct. Qed.
+
+Theorem C17_split_inc8 : forall cfg v pv st,
+  split_cfg cfg -> split_name v -> layout cfg v = Some pv -> in_wport pv ->
+  exists st', runs_to cfg (stemplate (PInc8 v)) st st' /\
+    mget (mem st') pv = (mget (mem st) pv + 1) mod 256 /\
+    only_changes [pv] st st' /\ keeps_xys st st'.
+Proof. exact split_inc8_correct. Qed.
+
+Theorem C17_split_dec8 : forall cfg v pv st,
+  split_cfg cfg -> split_name v -> layout cfg v = Some pv -> in_wport pv ->
+  exists st', runs_to cfg (stemplate (PDec8 v)) st st' /\
+    mget (mem st') pv = (mget (mem st) pv - 1) mod 256 /\
+    only_changes [pv] st st' /\ keeps_xys st st'.
+Proof. exact split_dec8_correct. Qed.
+
+Theorem C17_split_addassign8 : forall cfg v x pv px st,
+  split_cfg cfg -> split_name v -> split_name x ->
+  layout cfg v = Some pv -> layout cfg x = Some px ->
+  in_wport pv -> ordinary px ->
+  exists st', runs_to cfg (stemplate (PAddAssign8 v x)) st st' /\
+    mget (mem st') pv = (mget (mem st) pv + mget (mem st) px) mod 256 /\
+    only_changes [pv] st st' /\ keeps_xys st st'.
+Proof. exact split_addassign8_correct. Qed.
+
+Theorem C17_split_shl8_1 : forall cfg v pv st,
+  split_cfg cfg -> split_name v -> layout cfg v = Some pv -> in_wport pv ->
+  exists st', runs_to cfg (stemplate (PShl8_1 v)) st st' /\
+    mget (mem st') pv = (2 * mget (mem st) pv) mod 256 /\
+    only_changes [pv] st st' /\ keeps_xys st st'.
+Proof. exact split_shl8_1_correct. Qed.
+
+Theorem C17_split_shr8_1 : forall cfg v pv st,
+  split_cfg cfg -> split_name v -> layout cfg v = Some pv -> in_wport pv ->
+  exists st', runs_to cfg (stemplate (PShr8_1 v)) st st' /\
+    mget (mem st') pv = mget (mem st) pv / 2 /\
+    only_changes [pv] st st' /\ keeps_xys st st'.
+Proof. exact split_shr8_1_correct. Qed.
+
+Theorem C17_split_add8 : forall cfg dst x y pd px py st,
+  split_cfg cfg -> split_name dst -> split_name x -> split_name y ->
+  layout cfg dst = Some pd -> layout cfg x = Some px -> layout cfg y = Some py ->
+  in_wport pd -> in_wport px -> in_wport py ->
+  exists st', runs_to cfg (stemplate (PAdd8 dst x y)) st st' /\
+    mget (mem st') pd = (mget (mem st) px + mget (mem st) py) mod 256 /\
+    only_changes [pd] st st' /\ keeps_xys st st'.
+Proof. exact split_add8_correct. Qed.
+
+Theorem C17_split_neg8 : forall cfg dst x pd px st,
+  split_cfg cfg -> split_name dst -> split_name x ->
+  layout cfg dst = Some pd -> layout cfg x = Some px ->
+  in_wport pd -> in_wport px ->
+  exists st', runs_to cfg (stemplate (PNeg8 dst x)) st st' /\
+    mget (mem st') pd = (256 - mget (mem st) px) mod 256 /\
+    only_changes [pd] st st' /\ keeps_xys st st'.
+Proof. exact split_neg8_correct. Qed.
+
+Theorem C17_split_xorassign8 : forall cfg v x pv px st,
+  split_cfg cfg -> split_name v -> split_name x ->
+  layout cfg v = Some pv -> layout cfg x = Some px ->
+  in_wport pv -> ordinary px ->
+  exists st', runs_to cfg (stemplate (PXorAssign8 v x)) st st' /\
+    mget (mem st') pv = Z.lxor (mget (mem st) pv) (mget (mem st) px) /\
+    only_changes [pv] st st' /\ keeps_xys st st'.
+Proof. exact split_xorassign8_correct. Qed.
+
+Theorem C17_split_inc16 : forall cfg v pv st,
+  split_cfg cfg -> split_name v -> layout cfg v = Some pv ->
+  in_wport pv -> in_wport (pv + 1) -> bytes_ok st ->
+  exists st', runs_to cfg (stemplate (PInc16 v)) st st' /\
+    word (mem st') pv = (word (mem st) pv + 1) mod 65536 /\
+    only_changes [pv; pv + 1] st st' /\ keeps_xys st st'.
+Proof. exact split_inc16_correct. Qed.
+
+Theorem C17_split_dec16 : forall cfg v pv st,
+  split_cfg cfg -> split_name v -> layout cfg v = Some pv ->
+  in_wport pv -> in_wport (pv + 1) -> bytes_ok st ->
+  exists st', runs_to cfg (stemplate (PDec16 v)) st st' /\
+    word (mem st') pv = (word (mem st) pv - 1) mod 65536 /\
+    only_changes [pv; pv + 1] st st' /\ keeps_xys st st'.
+Proof. exact split_dec16_correct. Qed.
+
+Theorem C17_split_addconst16 : forall cfg v k pv st,
+  split_cfg cfg -> split_name v -> layout cfg v = Some pv ->
+  in_wport pv -> in_wport (pv + 1) -> 0 <= k < 65536 -> bytes_ok st ->
+  exists st', runs_to cfg (stemplate (PAddConst16 v k)) st st' /\
+    word (mem st') pv = (word (mem st) pv + k) mod 65536 /\
+    only_changes [pv; pv + 1] st st' /\ keeps_xys st st'.
+Proof. exact split_addconst16_correct. Qed.
+
+Theorem C17_split_shl16_1 : forall cfg v pv st,
+  split_cfg cfg -> split_name v -> layout cfg v = Some pv ->
+  in_wport pv -> in_wport (pv + 1) -> bytes_ok st ->
+  exists st', runs_to cfg (stemplate (PShl16_1 v)) st st' /\
+    word (mem st') pv = (2 * word (mem st) pv) mod 65536 /\
+    only_changes [pv; pv + 1] st st' /\ keeps_xys st st'.
+Proof. exact split_shl16_1_correct. Qed.
+
+Theorem C17_split_shr16_1 : forall cfg v pv st,
+  split_cfg cfg -> split_name v -> layout cfg v = Some pv ->
+  in_wport pv -> in_wport (pv + 1) -> bytes_ok st ->
+  exists st', runs_to cfg (stemplate (PShr16_1 v)) st st' /\
+    word (mem st') pv = word (mem st) pv / 2 /\
+    only_changes [pv; pv + 1] st st' /\ keeps_xys st st'.
+Proof. exact split_shr16_1_correct. Qed.
+
+Theorem C17_split_copy16 : forall cfg dst x pd px st,
+  split_cfg cfg -> split_name dst -> split_name x ->
+  layout cfg dst = Some pd -> layout cfg x = Some px ->
+  in_wport pd -> in_wport (pd + 1) -> in_wport px -> in_wport (px + 1) ->
+  pd <> px + 1 ->
+  exists st', runs_to cfg (stemplate (PCopy16 dst x)) st st' /\
+    mget (mem st') pd = mget (mem st) px /\ mget (mem st') (pd + 1) = mget (mem st) (px + 1) /\
+    word (mem st') pd = word (mem st) px /\
+    only_changes [pd; pd + 1] st st' /\ keeps_xys st st'.
+Proof. exact split_copy16_correct. Qed.
+
+Theorem C17_split_store_idx : forall cfg arr r x pa px n st,
+  split_cfg cfg -> split_name arr -> split_name x ->
+  layout cfg arr = Some pa -> layout cfg x = Some px ->
+  in_wport pa -> pa + n <= 4224 -> 0 <= rval r st < n -> ordinary px ->
+  exists st', runs_to cfg (stemplate (PStoreIdx arr r x)) st st' /\
+    mget (mem st') (pa + rval r st) = mget (mem st) px /\
+    only_changes [pa + rval r st] st st' /\ keeps_xys st st'.
+Proof. exact split_store_idx_correct. Qed.
+
+Theorem C17_split_load_idx : forall cfg dst arr r pd pa n st,
+  split_cfg cfg -> split_name dst -> split_name arr ->
+  layout cfg dst = Some pd -> layout cfg arr = Some pa ->
+  ordinary pd -> in_wport pa -> pa + n <= 4224 -> 0 <= rval r st < n ->
+  exists st', runs_to cfg (stemplate (PLoadIdx dst arr r)) st st' /\
+    mget (mem st') pd = mget (mem st) (pa + rval r st) /\
+    only_changes [pd] st st' /\ keeps_xys st st'.
+Proof. exact split_load_idx_correct. Qed.
+
+Theorem C17_split_inc_idx : forall cfg arr r pa n st,
+  split_cfg cfg -> split_name arr -> layout cfg arr = Some pa ->
+  in_wport pa -> pa + n <= 4224 -> 0 <= rval r st < n ->
+  exists st', runs_to cfg (stemplate (PIncIdx arr r)) st st' /\
+    mget (mem st') (pa + rval r st) = (mget (mem st) (pa + rval r st) + 1) mod 256 /\
+    only_changes [pa + rval r st] st st' /\ keeps_xys st st'.
+Proof. exact split_inc_idx_correct. Qed.
+
+Theorem C17_split_dec_idx : forall cfg arr r pa n st,
+  split_cfg cfg -> split_name arr -> layout cfg arr = Some pa ->
+  in_wport pa -> pa + n <= 4224 -> 0 <= rval r st < n ->
+  exists st', runs_to cfg (stemplate (PDecIdx arr r)) st st' /\
+    mget (mem st') (pa + rval r st) = (mget (mem st) (pa + rval r st) - 1) mod 256 /\
+    only_changes [pa + rval r st] st st' /\ keeps_xys st st'.
+Proof. exact split_dec_idx_correct. Qed.
+
+Theorem C17_split_addassign_idx : forall cfg arr r x pa px n st,
+  split_cfg cfg -> split_name arr -> split_name x ->
+  layout cfg arr = Some pa -> layout cfg x = Some px ->
+  in_wport pa -> pa + n <= 4224 -> 0 <= rval r st < n -> ordinary px ->
+  exists st', runs_to cfg (stemplate (PAddAssignIdx arr r x)) st st' /\
+    mget (mem st') (pa + rval r st)
+    = (mget (mem st) (pa + rval r st) + mget (mem st) px) mod 256 /\
+    only_changes [pa + rval r st] st st' /\ keeps_xys st st'.
+Proof. exact split_addassign_idx_correct. Qed.
+
+Theorem C17_split_copy_elem : forall cfg arr i j pa st,
+  split_cfg cfg -> split_name arr -> layout cfg arr = Some pa ->
+  0 <= i -> 0 <= j -> in_wport (pa + i) -> in_wport (pa + j) ->
+  exists st', runs_to cfg (stemplate (PCopyElem arr i j)) st st' /\
+    mget (mem st') (pa + i) = mget (mem st) (pa + j) /\
+    only_changes [pa + i] st st' /\ keeps_xys st st'.
+Proof. exact split_copy_elem_correct. Qed.
+
+Theorem C17_split_rmw_faults : forall cfg m v pv j s,
+  split_cfg cfg -> is_rmw_m m = true -> layout cfg v = Some pv -> in_wport (pv + j) ->
+  exec cfg m (OMem v j IxNone) s = XFault "read-modify-write on split-port memory" /\
+  exec cfg m (OMem v (128 + j) IxNone) s = XFault "read-modify-write on split-port memory".
+Proof. exact rmw_split_faults. Qed.
+
+Theorem C17_split_inc_faults : forall cfg v pv s,
+  split_cfg cfg -> layout cfg v = Some pv -> in_wport pv ->
+  exec cfg INC (OMem v 0 IxNone) s = XFault "read-modify-write on split-port memory".
+Proof. exact inc_split_faults. Qed.
+
+Theorem C17_split_inc_run_faults : forall cfg v pv st prog inl_sem ext_call fname fuel,
+  split_cfg cfg -> split_name v -> layout cfg v = Some pv -> in_wport pv ->
+  exists sl, slines_of (template (SInc8 v)) = Some sl /\
+    Sem.run cfg prog inl_sem ext_call (S fuel) fname sl 0 [] st [] 0%N
+    = Faulted "read-modify-write on split-port memory" fname 0%nat st.
+Proof. exact inc_split_run_faults. Qed.
+
+Theorem C17_split_inc_never_runs : forall cfg v pv st,
+  split_cfg cfg -> split_name v -> layout cfg v = Some pv -> in_wport pv ->
+  ~ exists st', runs_to cfg (template (SInc8 v)) st st'.
+Proof. exact inc_split_never_runs. Qed.
+
+Theorem C17_split_read_is_cell : forall cfg s v pv, split_cfg cfg -> layout cfg v = Some pv ->
+  in_wport pv ->
+  exists c, exec cfg LDA (OMem v 128 IxNone) s
+            = XOk (set_nz (set_a s (mget (mem s) pv)) (mget (mem s) pv)) c FNext.
+Proof. exact split_read_is_cell. Qed.
+
+Theorem C17_split_write_sets_cell : forall cfg s v pv, split_cfg cfg -> layout cfg v = Some pv ->
+  in_wport pv ->
+  exists c, exec cfg STA (OMem v 0 IxNone) s = XOk (set_mem s (mset (mem s) pv (rA s))) c FNext.
+Proof. exact split_write_sets_cell. Qed.
